@@ -2,6 +2,7 @@ import PhyloModel.Arena.PruneBTop
 import PhyloModel.Arena.Group3
 import PhyloModel.Dist.CompressPathLen
 import PhyloModel.Arena.Ops
+import PhyloModel.Arena.ResolvePost
 /-! # C11 — editing operations have exactly their documented effect
 
 Arena level (`AR`): exact frames of `prune` and of the regrouping step of `merge_children` / `resolve`.
@@ -100,5 +101,29 @@ theorem ladderize_sorts (kids : List Nat) (cnt : Nat → Nat) :
   have := List.pairwise_mergeSort (le := fun x y => decide (cnt x ≤ cnt y))
     (by intro a b c h1 h2; simp at *; omega) (by intro a b; simp; omega) kids
   simpa using this
+
+/-- **postcondition of `compress`** on every arena satisfying the invariant: when it succeeds, no live
+    non-root node with exactly one child is left, and the set of tips is unchanged -/
+theorem compress_postcondition (a a' : Arena) (o : Option Nat) (g : Good a) (h : compress a = (a', .ok o)) :
+    (∀ i, ¬ Unary a' i) ∧ (∀ i, IsTip a' i ↔ IsTip a i) :=
+  compress_post g h
+
+/-- **postcondition of `resolve`** for every outcome of its random choices: no node with more than two
+    children is left, and the set of tips is unchanged -/
+theorem resolve_postcondition (a a' : Arena) (picks : List (Nat × Nat)) (g : Good a)
+    (h : resolve a picks = some a') :
+    (∀ i, (nd a' i).children.length ≤ 2) ∧ (∀ i, IsTip a' i ↔ IsTip a i) :=
+  resolve_post picks g h
+
+/-- **frame of `ladderize`**: nothing changes except the order inside child lists (every node keeps its
+    parent, lengths, depth, name, comment; its child list is a permutation of what it was); tips unchanged -/
+theorem ladderize_only_reorders (a : Arena) :
+    PermKids a (ladderize a).1 ∧ ∀ i, IsTip (ladderize a).1 i ↔ IsTip a i :=
+  ⟨ladderize_frame a, (ladderize_frame a).tip⟩
+
+/-- every one of these operations keeps the arena invariant and terminates (C03's operation theorem) -/
+theorem edits_keep_invariant (a : Arena) (op : Op) (g : Good a) :
+    Good (applyOp a op).1 ∧ (applyOp a op).2 ≠ .diverge :=
+  applyOp_good op g
 
 end C11
